@@ -238,8 +238,6 @@ def check_once(ctx, rng, cname, M, permuted, big):
         pairs = {tuple(rng.sample(cand, 2)) for _ in range(rng.randint(1, 3))}
         if rng.random() < 0.3:
             pairs |= {(b, a) for a, b in list(pairs)[:1]}        # the same pair in both orientations is a legitimate hint set
-        if rng.random() < 0.2:
-            pairs = list(pairs) + list(pairs)[:1]                   # any iterable of pairs, repeats included
     w = {"class": cname, "terms": dict(M), "mapping": M.mapping, "form": form, "deg": deg,
          "lam": lk, "lam_value": None if callable(lam) else lam, "pairs": pairs}
     snap = (dict(M), M.mapping)
